@@ -20,8 +20,6 @@ def canon(s):
         return " ".join(t[:2] + t[3:])
     if t[0] == "cerr" and len(t) >= 3:
         return " ".join(t[:2])
-    if t[0].startswith("code=") and "rterr" in t:
-        return " ".join(t[: t.index("rterr") + 1])
     return s
 
 
